@@ -1,5 +1,6 @@
 import RgVerif.Lemmas.ParWalkSafety
 import RgVerif.Lemmas.ParWalkExec
+import RgVerif.Lemmas.ParWalkLive
 /-
 C07 — the parallel walker loses / duplicates nothing and terminates under every thread schedule.
 
@@ -122,5 +123,84 @@ above, so every trace replayed against the real walker is covered by these theor
 theorem driver_steps_are_model_steps {n : Nat} {s s' : State} {w : Nat} {a : Act}
     (h : stepFn n s w a = some s') : Step n s w s' :=
   stepFn_sound h
+
+/-- `active_workers` counts exactly the workers outside the idle loop that have not seen it reach 0
+(so `fetch_sub` in `deactivate_worker` never wraps), and while nobody is counted the worker whose
+decrement returned 0 exists — it is the one that broadcasts `Quit`. -/
+theorem inv_active {n : Nat} {roots : List Tree} {s : State} (hn : 0 < n)
+    (h : Reachable n roots s) :
+    s.active = sumTo n (Pc.counted ∘ s.pc) ∧
+    0 < sumTo n (Pc.counted ∘ s.pc) + sumTo n (Pc.zeroed ∘ s.pc) ∧
+    (∀ w, w < n → s.pc w = .deact → 1 ≤ s.active) := by
+  obtain ⟨h1, h2⟩ := reachable_count hn h
+  refine ⟨h1, h2, ?_⟩
+  intro w hw hpc
+  have := le_sumTo (Pc.counted ∘ s.pc) hw
+  simp only [Function.comp, hpc, Pc.counted] at this
+  omega
+
+/-- The domino: as soon as one worker has decided to leave, a `Quit` message exists (in a deque or
+in a worker's hand on its way back into a deque) — it is never consumed without being re-sent. -/
+theorem inv_quit_domino {n : Nat} {roots : List Tree} {s : State}
+    (h : Reachable n roots s) (w : Nat) (hw : w < n) (hg : (s.pc w).gone = 1) :
+    0 < quits n s := by
+  apply reachable_quitinv h
+  have := le_sumTo (Pc.gone ∘ s.pc) hw
+  simp only [Function.comp, hg] at this
+  omega
+
+/-- Nothing ever blocks: a worker that has not exited always has an enabled step. -/
+theorem always_enabled {n : Nat} {s : State} {w : Nat} (hw : w < n)
+    (hl : (s.pc w).isExited = false) : ∃ s', Step n s w s' :=
+  live_can_step hw hl
+
+/-- Deadlock (and livelock) freedom: in every reachable state in which some worker has not exited
+there is a worker `w` that, running alone, performs finitely many idle-loop steps (`StutterPath`;
+none at all unless every live worker is idle) and then a step that strictly lowers the termination
+measure `mu`. -/
+theorem no_deadlock {n : Nat} {roots : List Tree} {s : State} (hn : 0 < n)
+    (h : Reachable n roots s) (hne : ¬ AllExited n s) :
+    ∃ w, w < n ∧ ∃ s1 s2, StutterPath n w s s1 ∧ Step n s1 w s2 ∧ mu n s2 < mu n s1 :=
+  progress_possible hn h hne
+
+/-- The variant: every step strictly lowers `mu`, except the steps of the idle loop of `get_work`
+that find nothing (`recv` on an empty own deque, a failing steal attempt, the end of a failed
+round, the sleep), which leave `mu` and everything but the worker's position in that loop unchanged. -/
+theorem measure_decreases {n : Nat} {s s' : State} {w : Nat} (hs : Step n s w s') :
+    mu n s' < mu n s ∨ (mu n s' = mu n s ∧ Stutter s w s') :=
+  step_mu hs
+
+/-- Bounded progress: an execution from the initial state, whatever the schedule, contains at most
+`n·(n+9) + |entries|·(n+12)` non-stutter steps. -/
+theorem bounded_progress {n : Nat} {roots : List Tree} {s : State} {k : Nat} (hn : 0 < n)
+    (h : Run n (init n roots) k s) :
+    k ≤ n * (n + 9) + (entriesL roots).length * (n + 12) := by
+  have := h.bound
+  have := mu_init_le n hn roots
+  omega
+
+/-- From every reachable state the walk can still finish: some continuation reaches the state in
+which every worker has exited (no reachable state is doomed). -/
+theorem can_always_finish {n : Nat} {roots : List Tree} {s : State} (hn : 0 < n)
+    (h : Reachable n roots s) : ∃ k s', Run n s k s' ∧ AllExited n s' :=
+  can_finish hn (mu n s) s (Nat.le_refl _) h
+
+/-! Non-vacuity: two workers on the tree `0(1, 2(3))` under the schedule that realises the scenario
+"`active_workers` reaches 0 while an idle thief holds stolen work" run to completion; the hypotheses
+of `C07_safe` hold of the final state and all four entries were visited. -/
+example : ∃ s, Reachable 2 demoRoots s ∧ AllExited 2 s ∧ s.quitAsked = false ∧
+    s.visited = [0, 2, 3, 1] := by
+  have h : ((runActs 2 demoSched (init 2 demoRoots)).map fun s =>
+      (allExitedB 2 s, s.quitAsked, s.visited)) = some (true, false, [0, 2, 3, 1]) := by decide
+  cases e : runActs 2 demoSched (init 2 demoRoots) with
+  | none => rw [e] at h; cases h
+  | some s =>
+    rw [e] at h
+    simp only [Option.map_some, Option.some.injEq, Prod.mk.injEq] at h
+    refine ⟨s, runActs_reachable _ .init e, ?_, h.2.1, h.2.2⟩
+    intro w hw
+    have := h.1
+    simp only [allExitedB, List.all_eq_true, List.mem_range] at this
+    exact this w hw
 
 end RgVerif.Props.C07
